@@ -1,18 +1,21 @@
-(* C12 -- shared-memory pickling: decode (encode t) = t whatever the blocks hold beyond the payload. *)
+(* C12 -- shared-memory pickling: decode (encode t) = t whatever the blocks hold beyond the payload and
+   however the arrays of t lie in memory. *)
 From Coq Require Import ZArith List Bool Arith Lia.
-From LK Require Import Model.C12_shapes Gen.C12_shape Model.C12_pool.
+From LK Require Import Model.C12_shapes Gen.C12_shape Model.C12_pool Proofs.C12_layout.
 Import ListNotations.
 
 (* induction over trees with a list of subtrees *)
 Section TreeInd.
 Variable P : tree -> Prop.
 Hypothesis Hbuf : forall b, P (TBuf b).
+Hypothesis Harr : forall tr isz s elems, P (TArr tr isz s elems).
 Hypothesis Hatom : forall a, P (TAtom a).
 Hypothesis Hnode : forall ts, Forall P ts -> P (TNode ts).
 
 Fixpoint tree_ind2 (t : tree) : P t :=
   match t with
   | TBuf b => Hbuf b
+  | TArr tr isz s elems => Harr tr isz s elems
   | TAtom a => Hatom a
   | TNode ts => Hnode ts ((fix go (l : list tree) : Forall P l :=
                             match l with [] => Forall_nil P | x :: r => Forall_cons x (tree_ind2 x) (go r) end) ts)
@@ -71,35 +74,84 @@ Proof.
   rewrite G. reflexivity.
 Qed.
 
-Lemma decode_encode pad t : forall n rest,
-  let '(e, bs, _) := encode pad t n in decode e (map (view SliceRecorded) bs ++ rest) = Some (t, rest).
+Lemma forallb_Forall {B} (f : B -> bool) l : forallb f l = true -> Forall (fun x => f x = true) l.
+Proof. intro H. apply Forall_forall. intros x Hx. rewrite forallb_forall in H. exact (H x Hx). Qed.
+
+Lemma decode_encode pad t : wf_tree t = true -> forall n rest,
+  let '(e, bs, _) := encode pad t n in decode e (map (view SliceRecorded) bs ++ rest) = Some (arrived t, rest).
 Proof.
-  induction t as [b|a|ts IH] using tree_ind2; intros n rest.
+  induction t as [b|tr isz s elems|a|ts IH] using tree_ind2; intros Hwf n rest.
   - simpl. rewrite view_store. reflexivity.
+  - cbn [wf_tree] in Hwf. destruct tr as [p q|].
+    + cbn [encode map app decode arrived]. rewrite view_store.
+      rewrite (array_out_of_band _ _ _ _ _ Hwf). reflexivity.
+    + cbn [encode map app decode arrived].
+      rewrite (array_in_band _ _ _ _ Hwf). reflexivity.
   - reflexivity.
   - rewrite encode_node.
+    assert (Hall : Forall (fun x => wf_tree x = true) ts) by (apply forallb_Forall; exact Hwf).
     assert (G : forall n rest, let '(es, bs, _) := encode_list pad ts n in
-                               decode_list es (map (view SliceRecorded) bs ++ rest) = Some (ts, rest)).
-    { clear n rest. induction IH as [|x l Hx Hl IHl]; intros n rest; simpl; [reflexivity|].
-      specialize (Hx n). destruct (encode pad x n) as [[e bs] n1].
-      specialize (IHl n1). destruct (encode_list pad l n1) as [[es bs'] n2].
+                               decode_list es (map (view SliceRecorded) bs ++ rest) = Some (map arrived ts, rest)).
+    { clear n rest Hwf. induction IH as [|x l Hx Hl IHl]; intros n rest; simpl; [reflexivity|].
+      inversion Hall as [|? ? Hwx Hwl]; subst.
+      specialize (Hx Hwx n). destruct (encode pad x n) as [[e bs] n1].
+      specialize (IHl Hwl n1). destruct (encode_list pad l n1) as [[es bs'] n2].
       cbn [decode_list]. rewrite map_app, <- app_assoc, Hx, IHl. reflexivity. }
     specialize (G n rest). destruct (encode_list pad ts n) as [[es bs] n'].
     rewrite decode_node, G. reflexivity.
 Qed.
 
-Lemma shm_roundtrip_sliced pad t : shm_deserialize SliceRecorded (shm_serialize pad t) = Some t.
+Lemma shm_roundtrip_sliced pad t : wf_tree t = true -> shm_deserialize SliceRecorded (shm_serialize pad t) = Some (arrived t).
 Proof.
-  unfold shm_deserialize, shm_serialize.
-  pose proof (decode_encode pad t 0 []) as H. destruct (encode pad t 0) as [[e bs] n]. simpl.
+  intro Hwf. unfold shm_deserialize, shm_serialize.
+  pose proof (decode_encode pad t Hwf 0 []) as H. destruct (encode pad t 0) as [[e bs] n]. simpl.
   rewrite app_nil_r in H. rewrite H. reflexivity.
+Qed.
+
+(* what arrives has the content of what was sent: only the layout tag of an in-band array differs *)
+Lemma contents_arrived t : contents (arrived t) = contents t.
+Proof.
+  induction t as [b|tr isz s elems|a|ts IH] using tree_ind2; try reflexivity.
+  - destruct tr; reflexivity.
+  - cbn [arrived contents]. f_equal. rewrite map_map. apply map_ext_in.
+    intros x Hx. rewrite Forall_forall in IH. exact (IH x Hx).
 Qed.
 
 Lemma shm_slice_recorded : shm_slice = SliceRecorded.
 Proof. reflexivity. Qed.
 
-Lemma shm_roundtrip_l : forall pad t, shm_deserialize shm_slice (shm_serialize pad t) = Some t.
-Proof. intros. rewrite shm_slice_recorded. apply shm_roundtrip_sliced. Qed.
+Lemma shm_roundtrip_l : forall pad t, wf_tree t = true ->
+  shm_deserialize shm_slice (shm_serialize pad t) = Some (arrived t) /\ contents (arrived t) = contents t.
+Proof. intros pad t Hwf. rewrite shm_slice_recorded. split; [apply shm_roundtrip_sliced; exact Hwf|apply contents_arrived]. Qed.
+
+(* a tree without arrays (raw buffers and atoms only) comes back as it is *)
+Fixpoint no_arrays (t : tree) : bool :=
+  match t with TArr _ _ _ _ => false | TNode ts => forallb no_arrays ts | _ => true end.
+Lemma no_arrays_wf t : no_arrays t = true -> wf_tree t = true /\ arrived t = t.
+Proof.
+  induction t as [b|tr isz s elems|a|ts IH] using tree_ind2; intro H; try (split; reflexivity); [discriminate|].
+  cbn [no_arrays] in H. apply forallb_Forall in H. cbn [wf_tree arrived].
+  assert (G : Forall (fun x => wf_tree x = true /\ arrived x = x) ts).
+  { rewrite Forall_forall in *. intros x Hx. exact (IH x Hx (H x Hx)). }
+  split.
+  - apply forallb_forall. intros x Hx. rewrite Forall_forall in G. exact (proj1 (G x Hx)).
+  - f_equal. rewrite <- (map_id ts) at 2. apply map_ext_in. intros x Hx. rewrite Forall_forall in G. exact (proj2 (G x Hx)).
+Qed.
+Lemma shm_roundtrip_raw : forall pad t, no_arrays t = true -> shm_deserialize shm_slice (shm_serialize pad t) = Some t.
+Proof.
+  intros pad t H. destruct (no_arrays_wf t H) as [Hwf E].
+  destruct (shm_roundtrip_l pad t Hwf) as [R _]. rewrite E in R. exact R.
+Qed.
+
+(* the Fortran-ordered 2 x 3 array of the bytes 1..6: its block holds the columns one after the other;
+   reading that block back in index order (what a rebuild that ignores the order tag does) is another array *)
+Definition f23 : tree := TArr (OutOfBand [1; 0] [1; 0]) 1 [2; 3] [[1]; [2]; [3]; [4]; [5]; [6]].
+Lemma fortran_block_l :
+  wf_tree f23 = true /\
+  map (view SliceRecorded) (snd (shm_serialize (fun _ => [0; 0]) f23)) = [[1; 4; 2; 5; 3; 6]] /\
+  shm_deserialize shm_slice (shm_serialize (fun _ => [0; 0]) f23) = Some f23 /\
+  chunk 1 6 [1; 4; 2; 5; 3; 6] <> [[1]; [2]; [3]; [4]; [5]; [6]].
+Proof. repeat split; try (vm_compute; reflexivity). vm_compute. discriminate. Qed.
 
 (* what is stored: per payload, in order, its length; no block for an empty payload; a block at least as
    long as the payload otherwise *)
